@@ -30,25 +30,8 @@ SEQ_MEMBER_OPS = {'insert', 'append', 'extend', 'remove', 'pop', 'clear', '__del
 SET_OPS = {'add', 'remove', 'discard', 'update', 'difference_update', 'clear', 'pop', 'intersection_update'}
 
 
-def ops_on(fn, attr):
-    """[(op, [arg texts], node)] for operations on self.<attr>: method calls, subscript stores and deletes."""
-    out = []
-    for n in astq.walk_no_nested(fn):
-        if isinstance(n, ast.Call) and isinstance(n.func, ast.Attribute) and astq.u(n.func.value) == f'self.{attr}':
-            out.append((n.func.attr, [astq.u(a) for a in n.args], n))
-        elif isinstance(n, ast.Assign):
-            for t in n.targets:
-                if isinstance(t, ast.Subscript) and astq.u(t.value) == f'self.{attr}':
-                    out.append(('__setitem__', [astq.u(t.slice), astq.u(n.value)], n))
-        elif isinstance(n, ast.Delete):
-            for t in n.targets:
-                if isinstance(t, ast.Subscript) and astq.u(t.value) == f'self.{attr}':
-                    out.append(('__delitem__', [astq.u(t.slice)], n))
-    return sorted(out, key=lambda x: (x[2].lineno, x[2].col_offset))
 
 
-def pos(n):
-    return (n.lineno, n.col_offset)
 
 
 def run(ctx, rep):
@@ -115,280 +98,7 @@ def folded(ctx, rep):
     rep.floor('C18.R6', 'linqset assignment cases', len(res), 400)
 
 
-def qset(ctx, rep):
-    m = ctx.m
-    R1 = rep.rule('C18.R1', 'paired updates: sequence membership changes are mirrored in the set / hash table / lookup index')
-    R2 = rep.rule('C18.R2', 'check-before-mutate: raises and _hook_check precede the first write (or rollback), _hook_done follows with the same arguments')
-    R3 = rep.rule('C18.R3', 'bulk stores into the sequence have a uniqueness witness for the arriving values')
-    cd = m.clsdef(ClassRef(HYB, 'qset'))
-    methods = {st.name: st for st in cd.body if isinstance(st, ast.FunctionDef)}
-    expect = {
-        # method: (seq op, set ops with the roles of their arguments)
-        'insert': [('insert', 1, 'add', 0)],
-        '__delitem__': [('__delitem__', None, 'difference_update', None)],
-        '__setitem_index__': [('__setitem__', 1, 'add', 0)],
-        '__setitem_slice__': [('__setitem__', 1, 'update', 0)],
-        'clear': [('clear', None, 'clear', None)],
-    }
-    seen_members = 0
-    for name, fn in methods.items():
-        sops = [o for o in ops_on(fn, '_seq_') if o[0] in SEQ_MEMBER_OPS]
-        tops = [o for o in ops_on(fn, '_set_') if o[0] in SET_OPS]
-        if not sops and not tops:
-            continue
-        seen_members += 1
-        where = m.loc(HYB, fn)
-        rep.consult(f'{where} qset.{name}')
-        if name not in expect:
-            rep.instance(R1, ok=False, nontrivial=('qset', name))
-            rep.finding(R1, f'C18.R1/qset/{name}/unreviewed', where, f'qset.{name}',
-                        f'changes membership of the list or set ({[o[0] for o in sops]}, {[o[0] for o in tops]}) but is not in the reviewed pairing table')
-            continue
-        for sop, sarg, top, targ in expect[name]:
-            s_ = [o for o in sops if o[0] == sop]
-            t_ = [o for o in tops if o[0] == top]
-            ok = len(s_) == 1 and len(t_) >= 1
-            if ok and sarg is not None:
-                ok = any(t[1][targ] == s_[0][1][sarg] for t in t_)
-            rep.instance(R1, ok=ok, sample=dict(method=f'qset.{name}', seq=[(o[0], o[1]) for o in sops], set=[(o[0], o[1]) for o in tops]), nontrivial=('qset', name, sop))
-            if not ok:
-                rep.finding(R1, f'C18.R1/qset/{name}/{sop}-{top}', where, f'qset.{name}',
-                            f'`_seq_.{sop}` is not paired with `_set_.{top}` of the same arriving value '
-                            f'(seq ops {[(o[0], o[1]) for o in sops]}, set ops {[(o[0], o[1]) for o in tops]})')
-        # leaving side for the replacing mutators
-        if name == '__setitem_index__':
-            ok = any(o[0] == 'remove' and o[1] == ['old'] for o in tops) and 'old = self._seq_[index]' in astq.u(fn)
-            rep.instance(R1, ok=ok, nontrivial=('qset', name, 'leaving'))
-            if not ok:
-                rep.finding(R1, f'C18.R1/qset/{name}/leaving', where, f'qset.{name}', 'the replaced value is not removed from the set')
-        if name == '__setitem_slice__':
-            ok = any(o[0] == 'difference_update' and o[1] == ['leaving'] for o in tops) and 'leaving = self[slice_]' in astq.u(fn)
-            rep.instance(R1, ok=ok, nontrivial=('qset', name, 'leaving'))
-            if not ok:
-                rep.finding(R1, f'C18.R1/qset/{name}/leaving', where, f'qset.{name}', 'the replaced values are not removed from the set')
-        if name == '__delitem__':
-            ok = any(o[0] == 'difference_update' and o[1] == ['values'] for o in tops) and 'values = self[key]' in astq.u(fn)
-            rep.instance(R1, ok=ok, nontrivial=('qset', name, 'leaving'))
-            if not ok:
-                rep.finding(R1, f'C18.R1/qset/{name}/leaving', where, f'qset.{name}', 'the deleted values are not those removed from the set')
-        # R2 ordering
-        if name in ('insert', '__delitem__', '__setitem_index__', '__setitem_slice__'):
-            writes = [o[2] for o in sops + tops]
-            first_write = min(map(pos, writes))
-            raises = [n for n in astq.walk_no_nested(fn) if isinstance(n, ast.Raise)]
-            pm = astq.parent_map(fn)
-            late = [r for r in raises if pos(r) > first_write and not (r.exc is None and astq.enclosing(pm, r, ast.ExceptHandler) is not None)]
-            hc = astq.find_calls(fn, 'self._hook_check', nested=False)
-            hd = astq.find_calls(fn, 'self._hook_done', nested=False)
-            ok = not late and len(hc) == 1 and len(hd) == 1 and pos(hc[0]) < first_write and pos(hd[0]) > max(map(pos, writes)) and \
-                [astq.u(a) for a in hc[0].args] == [astq.u(a) for a in hd[0].args]
-            rep.instance(R2, ok=ok, nontrivial=('qset', name))
-            if not ok:
-                rep.finding(R2, f'C18.R2/qset/{name}', where, f'qset.{name}',
-                            'raising statements / _hook_check do not all precede the first write, or _hook_done does not follow with the same arguments')
-            # the sequence write that can fail must be rolled back
-            if name.startswith('__setitem_'):
-                seqw = [o[2] for o in sops][0]
-                tr = astq.enclosing(pm, seqw, ast.Try)
-                ok = tr is not None and any(h.type is None and isinstance(h.body[-1], ast.Raise) and
-                                            any(astq.u(c.func).startswith('self._set_.') for c in astq.calls(h)) for h in tr.handlers)
-                rep.instance(R2, ok=ok, nontrivial=('qset', name, 'rollback'))
-                if not ok:
-                    rep.finding(R2, f'C18.R2/qset/{name}/rollback', where, f'qset.{name}', 'the set is changed before the list store without a rollback handler')
-    rep.floor('C18.R1', 'qset membership-changing methods', seen_members, 5)
-    # duplicate checks before insertion
-    fn = methods.get('insert')
-    txt = astq.u(fn)
-    ok = 'if value in self:' in txt and 'raise DuplicateValueError(value)' in txt
-    rep.instance(R2, ok=ok, nontrivial='qset.insert-dupcheck')
-    if not ok:
-        rep.finding(R2, 'C18.R2/qset/insert/duplicate-check', m.loc(HYB, fn), 'qset.insert', 'no longer rejects a value that is already a member')
-    fn = methods.get('__setitem_index__')
-    ok = 'if value in self and value != old:' in astq.u(fn)
-    rep.instance(R2, ok=ok, nontrivial='qset.setitem-index-dupcheck')
-    if not ok:
-        rep.finding(R2, 'C18.R2/qset/__setitem_index__/duplicate-check', m.loc(HYB, fn), 'qset.__setitem_index__', 'no longer rejects a member other than the one replaced')
-    # R3 uniqueness witness
-    fn = methods.get('__setitem_slice__')
-    txt = astq.u(fn)
-    w1 = 'filterfalse(leaving.__contains__, filter(self.__contains__, values))' in txt
-    w2 = 'len(set(values)) != len(values)' in txt or 'len(set(values)) < len(values)' in txt or 'dict.fromkeys(values)' in txt
-    ok = w1 and w2
-    rep.instance(R3, ok=ok, nontrivial='qset.__setitem_slice__')
-    if not ok:
-        rep.finding(R3, 'C18.R3/qset.__setitem_slice__', m.loc(HYB, fn), 'qset.__setitem_slice__',
-                    'arriving values are stored without checking that they are new to the set' if not w1 else
-                    'arriving values are stored without checking that they are distinct from each other')
-    qf = m.func(HYB, 'qsetf.__init__')
-    ok = 'self._seq_ = tuple(dict.fromkeys(values))' in astq.u(qf) and 'self._set_ = frozenset(self._seq_)' in astq.u(qf)
-    rep.instance(R3, ok=ok, nontrivial='qsetf.__init__')
-    if not ok:
-        rep.finding(R3, 'C18.R3/qsetf.__init__', m.loc(HYB, qf), 'qsetf.__init__', 'the frozen ordered set is not built from de-duplicated values')
-    # copy owns its containers
-    cp = methods.get('copy')
-    ok = 'inst._set_ = self._set_.copy()' in astq.u(cp) and 'inst._seq_ = self._seq_.copy()' in astq.u(cp)
-    rep.instance(R1, ok=ok, nontrivial='qset.copy')
-    if not ok:
-        rep.finding(R1, 'C18.R1/qset/copy', m.loc(HYB, cp), 'qset.copy', 'copy shares the list or the set with the original')
-    # shared read methods come from qsetf
-    for nm in ('__len__', '__contains__', '__getitem__', '__iter__', '__reversed__'):
-        raw, _ = m.getraw(ClassRef(HYB, 'qset'), nm)
-        ok = raw is not None and astq.u(raw[1]) == f'qsetf.{nm}'
-        rep.instance(R1, ok=ok, nontrivial=('qset', nm))
-        if not ok:
-            rep.finding(R1, f'C18.R1/qset/{nm}', m.relfile(HYB), f'qset.{nm}', 'is no longer the qsetf implementation (len/contains/getitem must read the same pair of containers)')
-    mss = m.func(HYB, 'MutableSequenceSet.add')
-    ok = 'self.append(value)' in astq.u(mss) and 'except DuplicateValueError' in astq.u(mss)
-    rep.instance(R1, ok=ok, nontrivial='MutableSequenceSet.add')
-    if not ok:
-        rep.finding(R1, 'C18.R1/MutableSequenceSet.add', m.loc(HYB, mss), 'MutableSequenceSet.add', 'add() is no longer append-unless-duplicate')
-    dsc = m.func(HYB, 'MutableSequenceSet.discard')
-    ok = 'if value in self' in astq.u(dsc) and 'self.remove(value)' in astq.u(dsc)
-    rep.instance(R1, ok=ok, nontrivial='MutableSequenceSet.discard')
-    if not ok:
-        rep.finding(R1, 'C18.R1/MutableSequenceSet.discard', m.loc(HYB, dsc), 'MutableSequenceSet.discard', 'discard() is no longer remove-if-member')
 
 
-def linked(ctx, rep):
-    m = ctx.m
-    R1, R2, R3 = 'C18.R1', 'C18.R2', 'C18.R3'
-    ls = m.clsdef(ClassRef(LNK, 'linkseq'))
-    lq = m.clsdef(ClassRef(LNK, 'linqset'))
-    lsm = {st.name: st for st in ls.body if isinstance(st, ast.FunctionDef)}
-    lqm = {st.name: st for st in lq.body if isinstance(st, ast.FunctionDef)}
-    neutral = {'reverse', '__new__', '__init__'}
-    n = 0
-    for name, fn in lsm.items():
-        writes_value = [st for t, st in astq.stores(fn, nested=False) if isinstance(t, ast.Attribute) and t.attr == 'value']
-        writes_ends = [st for t, st in astq.stores(fn, nested=False) if isinstance(t, ast.Attribute) and t.attr in ('__link_first__', '__link_last__')]
-        if not (writes_value or writes_ends) or name in neutral:
-            continue
-        n += 1
-        ok = name in lqm
-        rep.instance(R1, ok=ok, sample=dict(method=f'linkseq.{name}', writes=[astq.u(x)[:50] for x in writes_value + writes_ends][:3]), nontrivial=('linkseq', name))
-        rep.consult(f'{m.loc(LNK, fn)} linkseq.{name}')
-        if not ok:
-            rep.finding(R1, f'C18.R1/linqset/{name}', m.loc(LNK, fn), f'linkseq.{name}',
-                        f'rewrites link values / chain ends but linqset does not override it: the hash table goes stale')
-    rep.floor('C18.R1', 'linkseq membership primitives', n, 5)
-    table_rules = {
-        '_seed': ('super()._seed(link)', 'self.__table[link.value] = link'),
-        '_spot': ('super()._spot(rel, neighbor, link)', 'self.__table[link.value] = link'),
-        '_unlink': ('super()._unlink(link)', 'del self.__table[link.value]'),
-        'clear': ('super().clear()', 'self.__table.clear()'),
-        'copy': ('inst = super().copy()', 'table[link.value] = link'),
-        '__setitem__': ('super().__setitem__(i, value)', 'table[link.value] = link'),
-    }
-    for name, frags in table_rules.items():
-        fn = lqm.get(name)
-        if fn is None:
-            continue        # reported above
-        txt = astq.u(fn)
-        ok = all(f in txt for f in frags)
-        rep.instance(R1, ok=ok, nontrivial=('linqset', name))
-        rep.consult(f'{m.loc(LNK, fn)} linqset.{name}')
-        if not ok:
-            rep.finding(R1, f'C18.R1/linqset/{name}/table', m.loc(LNK, fn), f'linqset.{name}',
-                        f'override no longer keeps the hash table in step (`{frags[-1]}` after `{frags[0]}`)')
-    fn = lqm.get('__setitem__')
-    if fn is not None:
-        txt = astq.u(fn)
-        ok = 'del table[v]' in txt and 'leaving = tuple((link.value for link in links))' in txt
-        rep.instance(R1, ok=ok, nontrivial=('linqset', '__setitem__', 'leaving'))
-        if not ok:
-            rep.finding(R1, 'C18.R1/linqset/__setitem__/leaving', m.loc(LNK, fn), 'linqset.__setitem__', 'replaced values are not dropped from the hash table')
-        ok = 'len(set(arriving)) != len(arriving)' in txt
-        rep.instance(R3, ok=ok, nontrivial='linqset.__setitem__')
-        if not ok:
-            rep.finding(R3, 'C18.R3/linqset.__setitem__', m.loc(LNK, fn), 'linqset.__setitem__', 'slice assignment stores arriving values without checking they are distinct from each other')
-    for name in ('__contains__', '_link_of'):
-        fn = lqm.get(name)
-        ok = fn is not None and 'self.__table' in astq.u(fn)
-        rep.instance(R1, ok=ok, nontrivial=('linqset', name))
-        if not ok:
-            rep.finding(R1, f'C18.R1/linqset/{name}', m.relfile(LNK), f'linqset.{name}', 'membership / lookup no longer reads the hash table')
-    # R2: checks before writes in the single-element mutators
-    ins = lsm['insert']
-    hc = astq.find_calls(ins, 'self._hook_check')
-    wr = [c for c in astq.calls(ins) if astq.call_name(c) in ('self._seed', 'self._spot')]
-    ok = len(hc) == 1 and wr and all(pos(hc[0]) < pos(w) for w in wr) and astq.u(hc[0].args[0]) == '(value,)'
-    rep.instance(R2, ok=ok, nontrivial='linkseq.insert')
-    if not ok:
-        rep.finding(R2, 'C18.R2/linkseq/insert', m.loc(LNK, ins), 'linkseq.insert', '_hook_check((value,), ...) does not precede the link insertion')
-    si = lsm['__setitem__']
-    pm = astq.parent_map(si)
-    vw = [st for t, st in astq.stores(si, nested=False) if isinstance(t, ast.Attribute) and t.attr == 'value']
-    hcs = astq.find_calls(si, 'self._hook_check')
-    ok = len(vw) == 2 and len(hcs) == 2 and all(any(pos(h) < pos(w) and astq.enclosing(pm, h, ast.If) is astq.enclosing(pm, w, ast.If) for h in hcs) for w in vw)
-    rep.instance(R2, ok=ok, nontrivial='linkseq.__setitem__')
-    if not ok:
-        rep.finding(R2, 'C18.R2/linkseq/__setitem__', m.loc(LNK, si), 'linkseq.__setitem__', 'a link value is rewritten before _hook_check in the same branch')
-    hk = lqm.get('_hook_check')
-    ok = hk is not None and 'filterfalse(departures.__contains__, filter(self.__contains__, arrivals))' in astq.u(hk) and 'raise Emsg.DuplicateValue(v)' in astq.u(hk)
-    rep.instance(R2, ok=ok, nontrivial='linqset._hook_check')
-    if not ok:
-        rep.finding(R2, 'C18.R2/linqset/_hook_check', m.relfile(LNK), 'linqset._hook_check', 'no longer rejects arriving values that are members and not departing')
-    wd = lqm.get('wedge')
-    txt = astq.u(wd)
-    ok = 'if value in self:' in txt and 'raise Emsg.DuplicateValue(value)' in txt and txt.index('raise Emsg.DuplicateValue(value)') < txt.index('self._spot(')
-    rep.instance(R2, ok=ok, nontrivial='linqset.wedge')
-    if not ok:
-        rep.finding(R2, 'C18.R2/linqset/wedge', m.loc(LNK, wd), 'linqset.wedge', 'duplicate / missing-neighbour checks do not precede the insertion')
-    # length bookkeeping of the primitives
-    for name, frag in (('_seed', 'self.__len += 1'), ('_spot', 'self.__len += 1'), ('_unlink', 'self.__len -= 1'), ('clear', 'self.__len = 0')):
-        ok = frag in astq.u(lsm[name])
-        rep.instance(R1, ok=ok, nontrivial=('linkseq', name, 'len'))
-        if not ok:
-            rep.finding(R1, f'C18.R1/linkseq/{name}/len', m.loc(LNK, lsm[name]), f'linkseq.{name}', f'length bookkeeping `{frag}` is gone')
 
 
-def predicates(ctx, rep):
-    m = ctx.m
-    R1 = 'C18.R1'
-    R4 = rep.rule('C18.R4', 'predicate store: conflicting arities are rejected before any change; every member is found by each of its references')
-    hd = m.func(COL, 'Predicates._hook_done')
-    txt = astq.u(hd)
-    ok = all(x in txt for x in ('for pred in leaving', 'for ref in pred.refs', 'pop(ref, None)', 'pop(pred, None)',
-                                'for pred in arriving', 'update(zip(pred.refs, repeat(pred)))', 'lookup[pred] = pred')) and \
-        txt.index('for pred in leaving') < txt.index('for pred in arriving')
-    rep.instance(R1, ok=ok, nontrivial='Predicates._hook_done')
-    rep.consult(m.loc(COL, hd) + ' Predicates._hook_done')
-    if not ok:
-        rep.finding(R1, 'C18.R1/Predicates/_hook_done', m.loc(COL, hd), 'Predicates._hook_done',
-                    'the lookup index is no longer updated for every reference of the leaving and then the arriving predicates')
-    for name, frag in (('clear', 'self._lookup.clear()'), ('copy', 'inst._lookup = self._lookup.copy()')):
-        fn = m.func(COL, f'Predicates.{name}')
-        ok = frag in astq.u(fn) and f'super().{name}()' in astq.u(fn)
-        rep.instance(R1, ok=ok, nontrivial=f'Predicates.{name}')
-        if not ok:
-            rep.finding(R1, f'C18.R1/Predicates/{name}', m.loc(COL, fn), f'Predicates.{name}', f'the lookup index does not follow {name}() (`{frag}`)')
-    hc = m.func(COL, 'Predicates._hook_check')
-    txt = astq.u(hc)
-    ok = all(x in txt for x in ('for pred in arriving', 'filter(None, map(get, pred.refs))', 'if prior != pred', 'for prior in leaving', 'raise Emsg.ValueConflictFor'))
-    stores_ = [t for t, st in astq.stores(hc) if isinstance(t, (ast.Attribute, ast.Subscript)) and 'conflicts' not in astq.u(t)]
-    ok = ok and not stores_
-    rep.instance(R4, ok=ok, nontrivial='Predicates._hook_check')
-    rep.consult(m.loc(COL, hc) + ' Predicates._hook_check')
-    if not ok:
-        rep.finding(R4, 'C18.R4/Predicates/_hook_check', m.loc(COL, hc), 'Predicates._hook_check',
-                    'no longer rejects (without side effects) an arriving predicate whose symbol is held by a different, non-leaving predicate')
-    g = m.func(COL, 'PredicatesBase.get')
-    ok = 'return self._lookup[ref]' in astq.u(g) and 'Predicate.System[ref]' in astq.u(g)
-    rep.instance(R4, ok=ok, nontrivial='PredicatesBase.get')
-    if not ok:
-        rep.finding(R4, 'C18.R4/PredicatesBase/get', m.loc(COL, g), 'PredicatesBase.get', 'lookup no longer goes through the multi-key index, then the system predicates')
-    ct = m.func(COL, 'PredicatesBase.__contains__')
-    ok = 'return ref in self._lookup' in astq.u(ct)
-    rep.instance(R4, ok=ok, nontrivial='PredicatesBase.__contains__')
-    if not ok:
-        rep.finding(R4, 'C18.R4/PredicatesBase/__contains__', m.loc(COL, ct), 'PredicatesBase.__contains__', 'membership no longer reads the lookup index')
-    bases = [b.qualname for b in m.bases(ClassRef(COL, 'Predicates'))]
-    ok = bases[:2] == ['PredicatesBase', 'qset']
-    rep.instance(R4, ok=ok, nontrivial='Predicates.bases')
-    if not ok:
-        rep.finding(R4, 'C18.R4/Predicates/bases', m.relfile(COL), 'Predicates', f'bases {bases}: lookup-based membership must precede the qset implementation')
-    fz = m.func(COL, 'Predicates.Frozen.__init__')
-    ok = 'v = Predicates(*args, **kw)' in astq.u(fz) and 'self._lookup = MapProxy(v._lookup)' in astq.u(fz)
-    rep.instance(R4, ok=ok, nontrivial='Predicates.Frozen')
-    if not ok:
-        rep.finding(R4, 'C18.R4/Predicates.Frozen', m.loc(COL, fz), 'Predicates.Frozen.__init__', 'frozen store is not built through a checked mutable store')
